@@ -234,13 +234,86 @@ impl FilterHelper for AdjacencyMap {
     }
 }
 
+pub const ALGOS: [&str; 9] = [
+    "dijkstra", "dijkstra_pred", "bfs_pred", "dfs_pred", "bellman_ford_moore", "floyd_warshall", "distance_matrix_metrics", "johnson", "weighted_converse",
+];
+
+fn run_algo(c: &C13L) -> R {
+    let g = &c.g;
+    let n = g.order();
+    let lim = n * n + 8;
+    let growth = match c.op.as_str() {
+        "dijkstra" => {
+            let d = AdjacencyListWeighted::<usize>::build(g);
+            at("DijkstraDist::distances");
+            grows(|| { let _ = DijkstraDist::new(&d, [0usize].into_iter()).distances(); })
+        }
+        "dijkstra_pred" => {
+            let d = AdjacencyListWeighted::<usize>::build(g);
+            at("DijkstraPred::predecessors");
+            grows(|| { let _ = DijkstraPred::new(&d, [0usize].into_iter()).predecessors(); })
+        }
+        "bfs_pred" => {
+            let d = AdjacencyList::build(g);
+            at("BfsPred::predecessors");
+            grows(|| { let _ = BfsPred::new(&d, [0usize].into_iter()).predecessors(); })
+        }
+        "dfs_pred" => {
+            let d = AdjacencyList::build(g);
+            at("DfsPred::predecessors");
+            grows(|| { let _ = DfsPred::new(&d, [0usize].into_iter()).predecessors(); })
+        }
+        "bellman_ford_moore" => {
+            let d = AdjacencyListWeighted::<isize>::build(g);
+            at("BellmanFordMoore::distances");
+            grows(|| { let mut b = BellmanFordMoore::new(&d, 0); let _ = b.distances().map(<[isize]>::to_vec); })
+        }
+        "floyd_warshall" => {
+            let d = AdjacencyListWeighted::<isize>::build(g);
+            at("FloydWarshall::distances");
+            grows(|| { let mut fw = FloydWarshall::new(&d); let _ = fw.distances().diameter(); })
+        }
+        "distance_matrix_metrics" => {
+            let d = AdjacencyListWeighted::<isize>::build(g);
+            let mut fw = FloydWarshall::new(&d);
+            let dm = fw.distances();
+            at("DistanceMatrix::{center, periphery, eccentricities, is_connected}");
+            grows(|| {
+                let _ = dm.center().len();
+                let _ = dm.periphery().take(lim).count();
+                let _ = dm.eccentricities().take(lim).count();
+                let _ = dm.is_connected();
+            })
+        }
+        "johnson" => {
+            let d = AdjacencyMap::build(g);
+            at("Johnson75::circuits");
+            if n > 6 { 0 } else { grows(|| { let _ = Johnson75::new(&d).circuits(); }) }
+        }
+        "weighted_converse" => {
+            let d = AdjacencyListWeighted::<usize>::build(g);
+            at("Converse::converse (weighted)");
+            grows(|| { let _ = d.converse(); let _ = d.clone(); let _ = d.arcs_weighted().take(lim).count(); })
+        }
+        other => return Err(mk_fail("known algorithm", "one of ALGOS".into(), other.to_string())),
+    };
+    ensure_eq!(
+        format!("repeating {} {REPEAT} more times (results dropped) does not grow the heap: bytes still allocated", c.op),
+        0isize,
+        growth
+    );
+    Ok(())
+}
+
 impl Case for C13L {
     fn prop(&self) -> &'static str {
         "C13"
     }
 
     fn run(&self) -> R {
-        if UOPS.contains(&self.op.as_str()) {
+        if ALGOS.contains(&self.op.as_str()) {
+            run_algo(self)
+        } else if UOPS.contains(&self.op.as_str()) {
             with_urepr!(self.repr.as_str(), run_uop(self))
         } else {
             with_urepr!(self.repr.as_str(), run_gen(self))
@@ -249,7 +322,7 @@ impl Case for C13L {
 
     fn fields(&self) -> Vec<(String, J)> {
         let mut f = vec![("repr".into(), J::s(&self.repr))];
-        f.extend(self.g.fields(false));
+        f.extend(self.g.fields(ALGOS.contains(&self.op.as_str())));
         f.push(("leak_op".into(), J::s(&self.op)));
         f
     }
@@ -281,6 +354,22 @@ pub fn search_leak(seed: u64, ctx: &mut Ctx) -> Option<J> {
                 }
             }
         }
+        if g.contiguous() {
+            for op in ALGOS {
+                let mut gw = g.clone();
+                for (_, w) in gw.arcs.iter_mut() {
+                    *w = 1 + (rng.below(4) as i64);
+                }
+                let c = C13L {
+                    repr: "AdjacencyList".to_string(),
+                    g: gw,
+                    op: op.to_string(),
+                };
+                if let Some(f) = ctx.eval(&c) {
+                    return Some(f);
+                }
+            }
+        }
         if ctx.expired() {
             return None;
         }
@@ -294,7 +383,7 @@ pub fn replay_leak(j: &J) -> Result<Option<J>, String> {
         return Err("leak cases use the unweighted representations".into());
     }
     let op = j.req("leak_op")?.str()?.to_string();
-    if !UOPS.contains(&op.as_str()) && !GENS.contains(&op.as_str()) {
+    if !UOPS.contains(&op.as_str()) && !GENS.contains(&op.as_str()) && !ALGOS.contains(&op.as_str()) {
         return Err(format!("unknown leak_op {op}"));
     }
     Ok(crate::eval_case(&C13L { repr, g, op }))
